@@ -43,7 +43,8 @@ type c20Hook struct {
 	Name       string `json:"name"`
 	Stages     []int  `json:"stages"`     // 0 = pre-commit, 1 = pre-push
 	Principals []int  `json:"principals"` // indices into in.principals
-	Ret        int    `json:"ret"`        // the hook script is `return <ret>`
+	Ret        int    `json:"ret"`        // what the hook script returns in a pristine sandbox
+	Script     string `json:"script,omitempty"` // ret | set (leaves globals behind) | read (returns 77 if it sees them)
 }
 type c20Principal struct {
 	ID     int   `json:"id"`
@@ -289,7 +290,7 @@ func c20TimingScript(family string, size int) string {
 	case "format":
 		return "local s = string.format(\"%99999999d\", 1)\nwhile true do s = string.format(\"%099d\", 1) end"
 	case "concat":
-		return "local t = {}\nfor i = 1, 20000 do t[i] = \"xxxxxxxxxx\" end\nwhile true do local s = table.concat(t) end"
+		return "local t = {}\nfor i = 1, 2000 do t[i] = \"xxxxxxxxxxxxxxxxxxxxxxxxxxxxxxxxxxxxxxxxxxxxxxxxxx\" end\nwhile true do local s = table.concat(t) end"
 	case "sortcmp":
 		return "table.sort({3, 2, 1}, function(a, b) while true do end end)"
 	case "gsubfn":
@@ -480,7 +481,16 @@ func c20HookSel(t *testing.T, in c20In) c20Impl {
 
 	root := BuildRootMetadata(t, spec.Root)
 	for _, h := range in.Hooks {
-		blob, err := repo.WriteBlob([]byte(fmt.Sprintf("return %d\n", h.Ret)))
+		// every hook must see a pristine sandbox: "set" leaves a global and a replaced API behind,
+		// "read" returns 77 if it can see either; in a fresh sandbox all three kinds return h.Ret
+		src := fmt.Sprintf("return %d\n", h.Ret)
+		switch h.Script {
+		case "set":
+			src = fmt.Sprintf("polluted = 1\nstrSplit = function() return {} end\nreturn %d\n", h.Ret)
+		case "read":
+			src = fmt.Sprintf("if polluted ~= nil then return 77 end\nif #strSplit(\"a,b\", \",\") ~= 2 then return 77 end\nreturn %d\n", h.Ret)
+		}
+		blob, err := repo.WriteBlob([]byte(src))
 		if err != nil {
 			t.Fatal(err)
 		}
@@ -712,7 +722,7 @@ func genC20HookSel(r *Rng) c20In {
 	}
 	nh := r.Intn(4)
 	for i := 0; i < nh; i++ {
-		h := c20Hook{Name: fmt.Sprintf("h%d", i), Ret: []int{0, 0, 1, 3}[r.Intn(4)]}
+		h := c20Hook{Name: fmt.Sprintf("h%d", i), Ret: []int{0, 0, 1, 3}[r.Intn(4)], Script: []string{"ret", "ret", "set", "read", "read"}[r.Intn(5)]}
 		switch r.Intn(3) {
 		case 0:
 			h.Stages = []int{0}
@@ -730,6 +740,17 @@ func genC20HookSel(r *Rng) c20In {
 			h.Principals = []int{}
 		}
 		in.Hooks = append(in.Hooks, h)
+	}
+	if r.Chance(30) {
+		// targeted family: one principal runs three hooks of the same stage, one of which leaves
+		// globals behind - the other two must not see them, in whichever order they run
+		in.Hooks = nil
+		for i, k := range []string{"read", "set", "read"} {
+			in.Hooks = append(in.Hooks, c20Hook{Name: fmt.Sprintf("h%d", i), Ret: []int{0, 1, 3}[r.Intn(3)], Script: k, Stages: []int{0}, Principals: []int{0}})
+		}
+		in.Signer = in.Principals[0].Keys[0]
+		in.Stage = 0
+		return in
 	}
 	// signer: mostly a key of some principal, sometimes the root key (a root principal without hooks) or an outsider
 	switch x := r.Intn(10); {
